@@ -593,6 +593,55 @@ def run(chk):
     if uses < 2:
         raise core.AnalysisBroken("EclIO::EGrid: fewer than 2 uses of the NNC1/NNC2 members found")
 
+    # ---- C13.mapunits: the origin of the map axes is scaled with the factor of the MAPUNITS the object remembers
+    r_mu = chk.rule("C13.mapunits", "every MapAxes constructor that records a MAPUNITS string (from the deck, from an EGRID file, from its argument) initialises the axes with length_factor(<that unit>): in the block that sets map_units the factor handed to init() is assigned from length_factor, or the constructor delegates with length_factor(mapunits); the deck path and the EGRID path therefore give the same transform", floor=3)
+    mx = chk.facts(["opm/input/eclipse/EclipseState/Grid/MapAxes.cpp"])
+    n_mu = 0
+    for f in mx.fns:
+        if f["q"] != "Opm::MapAxes::MapAxes" or not (f.get("body") or f.get("inits")):
+            continue
+        sets = []
+        pmm = {}
+        for part in ([f["body"]] if f.get("body") else []):
+            for x in walk(part):
+                for ch in children(x):
+                    pmm[id(ch)] = x
+            for n in walk(part):
+                lhs = None
+                if n["k"] == "Bin" and n.get("asg") and n.get("op") == "=":
+                    lhs = n["c"][0]
+                elif n["k"] == "OpCall" and n.get("op") == "=" and len(n.get("a") or []) == 2:
+                    lhs = n["a"][0]
+                if lhs is not None and strip(lhs).get("k") == "Mem" and strip(lhs).get("n") == "map_units":
+                    sets.append(n)
+        if not sets:
+            continue
+        n_mu += 1
+        key = "ctor%s" % f["sig"].replace("void ", "")[:60]
+        deleg = [i for i in f.get("inits", []) or [] if isinstance(i.get("init"), dict) and any(x["k"] == "Call" and (x.get("fn") or "").endswith("length_factor") for x in walk(i["init"]))]
+        inits_c = [c for c in walk(f["body"]) if c["k"] == "MCall" and c.get("m") == "init" and c.get("a")] if f.get("body") else []
+        ok = False
+        how = None
+        if deleg:
+            ok, how = True, "delegates with length_factor(...)"
+        elif inits_c:
+            a0 = strip(inits_c[0]["a"][0])
+            if a0.get("k") == "Call" and (a0.get("fn") or "").endswith("length_factor"):
+                ok, how = True, "init(length_factor(...), ...)"
+            elif a0.get("k") == "Ref":
+                v = a0["n"]
+                for st in sets:
+                    blk = pmm.get(id(st))
+                    while blk is not None and blk.get("k") != "Block":
+                        blk = pmm.get(id(blk))
+                    if blk is not None and any(x["k"] == "Bin" and x.get("asg") and strip(x["c"][0]).get("n") == v and any(y["k"] == "Call" and (y.get("fn") or "").endswith("length_factor") for y in walk(x["c"][1])) for x in stmt_list(blk)):
+                        ok, how = True, "%s = length_factor(...) next to the assignment of map_units" % v
+        chk.instance(r_mu, key, sample=dict(constructor=f["sig"][:80], how=how))
+        if not ok:
+            chk.violation(r_mu, key, "MapAxes::MapAxes%s records MAPUNITS but initialises the axes without length_factor of that unit: the origin stays unscaled, so transform()/inv_transform() of a grid loaded this way differ from the grid built from the deck (FEET: 1 - 0.3048 of the origin)" % f["sig"].replace("void ", "")[:70], f["file"], sets[0]["l"])
+    if n_mu < 3:
+        raise core.AnalysisBroken("MapAxes: fewer than 3 constructors record MAPUNITS (%d)" % n_mu)
+
     # ---- C13.zcorn: where the eight corner depths of cell (i,j,k) live in ZCORN
     r_zc = chk.rule("C13.zcorn", "ZCORN layout: corner c = (cx, cy, cz) of cell (i,j,k) is element 2i + cx + 2nx(2j + cy) + 4 nx ny (2k + cz).  The generators for DZV/DEPTHZ and DZ/TOPS grids write exactly these eight elements per cell (top face before, bottom face after the layer thickness is added; the DEPTHZ node is the one at (i+cx, j+cy)), and both getCellCorners implementations read them in the same corner order", floor=32)
 
